@@ -17,13 +17,19 @@ pub fn prelude() -> Vec<E> {
             method("set", &["i", "w"], fset(var("this"), "v", var("w"))),
         ])),
         let_("gc", object(Some(var("go")), vec![field("w", int(5))])),
+        // three levels with different field names: paths with two and three intermediate fields
+        let_("gn", object(None, vec![field("p", object(None, vec![field("q", object(None, vec![
+            field("v", int(20)),
+            method("m", &["k"], binop("-", fget(var("this"), "v"), var("k"))),
+            method("+", &["k"], binop("+", fget(var("this"), "v"), var("k"))),
+        ])), field("v", int(30))])), field("v", int(40))])),
         fun("f", &["p"], binop("+", var("p"), int(1))),
         fun("g", &["p", "q"], block(vec![print("g", vec![]), var("p")])),
     ]
 }
 
 pub fn epilogue() -> Vec<E> {
-    vec![print("|~ ~ ~ ~ ~\\n", vec![var("gx"), var("gy"), var("ga"), var("go"), var("gc")])]
+    vec![print("|~ ~ ~ ~ ~ ~\\n", vec![var("gx"), var("gy"), var("ga"), var("go"), var("gc"), var("gn")])]
 }
 
 pub fn templates() -> Vec<E> {
@@ -55,6 +61,9 @@ pub fn templates() -> Vec<E> {
         binop("|", t(), h()), binop("&", f(), h()), binop("*", int(0), h()), binop("+", h(), int(0)),
         block(vec![set("gx", int(2)), array(var("gx"), block(vec![set("gx", binop("+", var("gx"), int(1))), h()]))]),
         array(int(2), idx(var("go"), h())), array(int(2), binop("+", var("go"), h())),
+        // receiver paths with two intermediate fields of different names
+        mcall(fget(fget(var("gn"), "p"), "q"), "m", vec![h()]), fset(fget(fget(var("gn"), "p"), "q"), "v", h()),
+        mcall(fget(fget(var("gn"), "p"), "q"), "+", vec![h()]), binop("+", fget(fget(var("gn"), "p"), "q"), h()),
     ]
 }
 
